@@ -17,6 +17,7 @@ pub mod c13;
 pub mod c14;
 pub mod c15;
 pub mod c16;
+pub mod c17;
 pub mod c20;
 
 pub trait Check: Sync {
@@ -24,6 +25,10 @@ pub trait Check: Sync {
     fn run(&self, ctx: &mut Ctx) -> Result<(), MachineryError>;
     /// single-case oracle (also used by `seedmc replay`)
     fn oracle(&self, c: &Case, r: &RefOutcome, o: &Outcome) -> Verdict;
+    /// oracle on a raw CLI outcome, for checks judged through the plain CLI
+    fn oracle_cli(&self, _c: &Case, _r: &RefOutcome, _o: &crate::subject::CliOutcome) -> Option<Verdict> {
+        None
+    }
 }
 
 pub fn get(id: &str) -> Option<Box<dyn Check>> {
@@ -42,13 +47,14 @@ pub fn get(id: &str) -> Option<Box<dyn Check>> {
         "C14" => Some(Box::new(c14::C14)),
         "C15" => Some(Box::new(c15::C15)),
         "C16" => Some(Box::new(c16::C16)),
+        "C17" => Some(Box::new(c17::C17)),
         "C20" => Some(Box::new(c20::C20)),
         _ => None,
     }
 }
 
 pub fn all_ids() -> Vec<&'static str> {
-    vec!["C01", "C02", "C04", "C05", "C06", "C07", "C08", "C10", "C11", "C12", "C13", "C14", "C15", "C16", "C20"]
+    vec!["C01", "C02", "C04", "C05", "C06", "C07", "C08", "C10", "C11", "C12", "C13", "C14", "C15", "C16", "C17", "C20"]
 }
 
 /// does `msg` mention `parts` in this order (each after the previous one)?
